@@ -35,13 +35,13 @@ func runC03(p *core.Prog, r *core.Report) {
 	r.Rule("C03.R3", "child errors propagate: completions carry the child's own error; nested manifests are copied by digest with the child flag, tags without it; a failed blob transfer never reports success", 10)
 	c04R4(p, r, trav, "C03.R3")
 	c04R6(p, r, trav, "C03.R3")
-	c03R4(p, r)
+	c03R4(p, r, "C03.R4")
 	c03R5(p, r, "C03.R5")
-	c03R7(p, r)
+	c03R7(p, r, "C03.R7")
 	// a copy into a layout is complete only if the collector cannot run under it
 	c08R1(p, r, "C03.R8")
 	c08R2(p, r, "C03.R9")
-	c03R6(p, r)
+	c03R6(p, r, "C03.R6")
 	c03R10(p, r)
 	// referrers are part of the image when asked for: what the client learned about the referrers API of one repository answers for that repository only (shared with C10.R8)
 	structKeyRule(p, r, "C03.R11")
@@ -346,9 +346,8 @@ func c03R2(p *core.Prog, r *core.Report, trav *ssa.Function) {
 	}
 }
 
-func c03R4(p *core.Prog, r *core.Report) {
-	const rule = "C03.R4"
-	r.Rule(rule, "waiter protocol: the first copier stores its error before closing the done channel and forgets a failed entry under the lock; waiters read the error only after receiving from the done channel", 3)
+func c03R4(p *core.Prog, r *core.Report, rule string) {
+	r.Rule(rule, "waiter protocol: the first copier stores its error before closing the done channel and forgets a failed entry under the lock; waiters read the error only after receiving from the done channel, and a caller that finds the content in flight is told 'nothing to do' (no callback, no error) only after that receive: a manifest is never pushed while a blob it shares with another image is still a temporary file or an open upload", 4)
 	fn := p.Func(".", "imageSeenOrWait")
 	if fn == nil {
 		r.MissingAnchor(rule, "regclient.imageSeenOrWait")
@@ -453,6 +452,70 @@ func c03R4(p *core.Prog, r *core.Report) {
 		}
 	}
 	r.Check(okWait, rule, name, "waiters read the error after the wake-up", p.Pos(fn.Pos()), "the shared error is only returned on paths that received from the done channel")
+	// a 'nothing to do' answer (no callback; the error is nil or the entry's stored error) is only
+	// given behind the receive from the entry's done channel
+	okSkip, skipPos := true, fn.Pos()
+	for _, ret := range core.Returns(fn) {
+		if len(ret.Results) < 2 || !core.IsNilConst(core.ReturnOperand(ret, 0)) {
+			continue
+		}
+		ev := core.ReturnOperand(ret, 1)
+		skip := core.IsNilConst(ev)
+		if u, isLoad := ev.(*ssa.UnOp); isLoad && u.Op == token.MUL {
+			if _, isFA := u.X.(*ssa.FieldAddr); isFA {
+				skip = true
+			}
+		}
+		if skip && !afterFieldChanRecv(ret) {
+			okSkip, skipPos = false, ret.Pos()
+		}
+	}
+	r.Check(okSkip, rule, name, "in-flight content is waited for", p.Pos(skipPos), "every return that hands back neither a callback nor a fresh error lies behind a receive from the entry's done channel; answering 'already copied' while the first copier is still running lets the caller publish a manifest (and its tag) before the shared blob exists at the target")
+}
+
+// afterFieldChanRecv: the instruction executes only after a receive from a channel that is loaded
+// from a struct field (the done channel of a shared entry): the receive case of a select, or a plain
+// receive that dominates it.
+func afterFieldChanRecv(at ssa.Instruction) bool {
+	fieldChan := func(v ssa.Value) bool {
+		u, ok := v.(*ssa.UnOp)
+		if !ok || u.Op != token.MUL {
+			return false
+		}
+		_, ok = u.X.(*ssa.FieldAddr)
+		return ok
+	}
+	if anyGuard(at.Block(), func(c ssa.Value, pol bool) bool {
+		b, ok := c.(*ssa.BinOp)
+		if !ok || b.Op != token.EQL || !pol {
+			return false
+		}
+		ex, ok := b.X.(*ssa.Extract)
+		if !ok || ex.Index != 0 {
+			return false
+		}
+		sel, ok := ex.Tuple.(*ssa.Select)
+		if !ok {
+			return false
+		}
+		k, ok := core.ConstInt(b.Y)
+		if !ok || k < 0 || int(k) >= len(sel.States) {
+			return false
+		}
+		st := sel.States[k]
+		return st.Dir == types.RecvOnly && fieldChan(st.Chan)
+	}) {
+		return true
+	}
+	fn := at.Parent()
+	for _, b := range fn.Blocks {
+		for _, in := range b.Instrs {
+			if u, ok := in.(*ssa.UnOp); ok && u.Op == token.ARROW && fieldChan(u.X) && core.DominatesInstr(in, at) {
+				return true
+			}
+		}
+	}
+	return false
 }
 
 // mediaTypeSwitches extracts, from the syntax of fn and its closures, the constant sets of the case
@@ -567,8 +630,7 @@ func c03R5(p *core.Prog, r *core.Report, rule string) {
 
 // c03R6: in-place filtering (`ret := in[:0]; ret = append(ret, …)`) writes into the caller's backing
 // array; a caller that filters one list several times loses entries.
-func c03R6(p *core.Prog, r *core.Report) {
-	const rule = "C03.R6"
+func c03R6(p *core.Prog, r *core.Report, rule string) {
 	r.Rule(rule, "list filters do not reuse their input's backing array: no append to a zero-length re-slice of a slice parameter in the descriptor / scheme / referrer packages", 3)
 	n := 0
 	for _, rel := range []string{"types/descriptor", "scheme", "types/referrer", "types/manifest"} {
@@ -677,8 +739,7 @@ func emptySlice(v ssa.Value) bool {
 	return false
 }
 
-func c03R7(p *core.Prog, r *core.Report) {
-	const rule = "C03.R7"
+func c03R7(p *core.Prog, r *core.Report, rule string) {
 	r.Rule(rule, "in BlobCopy the 'already at the target' test (BlobHead on the target reference) is given a copy of the descriptor whose URLs field has been overwritten with an empty list: a registry BlobHead falls back to the descriptor's external URLs, so with the caller's descriptor a third-party server would answer for the target and the layer would be skipped", 1)
 	fn := p.Method(".", "RegClient", "BlobCopy")
 	if fn == nil {
